@@ -202,6 +202,9 @@ def finish(prop, mod, tier, seed, results, t0, min_concluded=0.9):
         functions_declared=meta.get('functions', []),
         bounds=meta.get('bounds', {}), outside_claim=meta.get('outside', []),
         stubs_hit=stubs, stubs_declared=meta.get('stubs', []),
+        slowest_instances=[dict(label=r['label'], wall_s=r.get('wall_s'), paths=r.get('paths'), notes=r['notes'][:3])
+                           for r in sorted(results, key=lambda r: -(r.get('wall_s') or 0))[:8]],
+        notes=[dict(label=r['label'], notes=r['notes'][:4]) for r in results if r['notes'] and r['status'] == HOLDS][:20],
         known_findings_hit=sorted(known_hits.keys()),
         new_violations=len(replay_paths),
         exhaustive=False,
